@@ -50,6 +50,18 @@ pub fn commit_unblinded_raw(value: u64, gen: &[u8; 64]) -> [u8; 64] {
     c
 }
 
+/// loop-free equality of 64-byte objects (so that harnesses with a small global unwind bound can use it)
+pub fn eq64(a: &[u8; 64], b: &[u8; 64]) -> bool {
+    let w = |x: &[u8; 64], i: usize| -> u128 {
+        u128::from_le_bytes([x[i], x[i + 1], x[i + 2], x[i + 3], x[i + 4], x[i + 5], x[i + 6], x[i + 7], x[i + 8], x[i + 9], x[i + 10], x[i + 11], x[i + 12], x[i + 13], x[i + 14], x[i + 15]])
+    };
+    w(a, 0) == w(b, 0) && w(a, 16) == w(b, 16) && w(a, 32) == w(b, 32) && w(a, 48) == w(b, 48)
+}
+fn is_zero32(p: *const c_uchar) -> bool {
+    let w: [u64; 4] = unsafe { core::ptr::read_unaligned(p as *const [u64; 4]) };
+    (w[0] | w[1] | w[2] | w[3]) == 0
+}
+
 // ---- logs -----------------------------------------------------------------------------------------------------
 #[derive(Copy, Clone)]
 pub struct RpCall {
@@ -96,9 +108,8 @@ pub static mut ALL_VALID: bool = false;
 // (raw objects are read/written as whole arrays: one dereference each, no per-byte pointer arithmetic)
 pub unsafe extern "C" fn generator_generate_blinded(_ctx: *const Context, gen: *mut FfiPk, key32: *const c_uchar, blind32: *const c_uchar) -> c_int {
     let tag: [u8; 32] = *(key32 as *const [u8; 32]);
-    let blind: [u8; 32] = *(blind32 as *const [u8; 32]);
     let mut raw = gen_unblinded_raw(&tag);
-    if blind != [0u8; 32] { raw[1] = 3; } // blinded generators are a different term (never produced by the verifier)
+    if !is_zero32(blind32) { raw[1] = 3; } // blinded generators are a different term (never produced by the verifier)
     *(gen as *mut [u8; 64]) = raw;
     GEN_CALLS += 1;
     1
@@ -117,9 +128,8 @@ pub unsafe extern "C" fn pedersen_commitment_parse(_ctx: *const Context, out: *m
 }
 pub unsafe extern "C" fn pedersen_commit(_ctx: *const Context, commit: *mut FfiCommit, blind: *const c_uchar, value: u64, value_gen: *const FfiPk) -> c_int {
     let g: [u8; 64] = *(value_gen as *const [u8; 64]);
-    let b: [u8; 32] = *(blind as *const [u8; 32]);
     let mut raw = commit_unblinded_raw(value, &g);
-    if b != [0u8; 32] { raw[0] = 0x42; }
+    if !is_zero32(blind) { raw[0] = 0x42; }
     *(commit as *mut [u8; 64]) = raw;
     COMMIT_CALLS += 1;
     1
